@@ -489,9 +489,14 @@ func main() {
 			return
 		}
 	}
-	os.Remove(filepath.Join(*out, "Facts.lean"))
-	os.Remove(filepath.Join(*out, "Arith.lean"))
-	os.Remove(filepath.Join(*out, "Funcs.lean"))
+	// the old files stay in place until the new ones are complete and are then replaced by rename,
+	// so that a Lean build of another check running at the same time never sees a missing file;
+	// they are removed only when the extraction fails (nothing stale survives a failure)
+	removeGenerated := func() {
+		os.Remove(filepath.Join(*out, "Facts.lean"))
+		os.Remove(filepath.Join(*out, "Arith.lean"))
+		os.Remove(filepath.Join(*out, "Funcs.lean"))
+	}
 	os.Remove(stamp)
 	cfg := &packages.Config{Mode: packages.NeedName | packages.NeedFiles | packages.NeedSyntax | packages.NeedTypes | packages.NeedTypesInfo | packages.NeedImports | packages.NeedDeps,
 		Dir: *repo, Env: append(os.Environ(), "GOFLAGS=-mod=mod", "GOPROXY=off", "GOSUMDB=off", "GOTOOLCHAIN=local"), Tests: false}
@@ -502,6 +507,7 @@ func main() {
 	pkgs, err := packages.Load(cfg, pats...)
 	if err != nil {
 		fmt.Fprintln(os.Stderr, "load:", err)
+		removeGenerated()
 		os.Exit(1)
 	}
 	var hookAims, sessionRule, mapRanges, envUses, volatileSets, fatalSites, signerRows, checkRuns, checkStateDB, pinned, validateRows, routeRows, validateGuards rows
@@ -996,18 +1002,21 @@ func main() {
 	sb.WriteString(norm("app.App.Prepare").lean("prepareSetters", "String", str))
 	sb.WriteString("end OLP.Gen\n")
 	os.MkdirAll(*out, 0755)
-	if err := ioutil.WriteFile(filepath.Join(*out, "Arith.lean"), []byte(arithLean()), 0644); err != nil {
-		fmt.Fprintln(os.Stderr, err)
+	writeGenerated := func(name, content string) {
+		tmp := filepath.Join(*out, "."+name+".tmp")
+		if err := ioutil.WriteFile(tmp, []byte(content), 0644); err == nil {
+			err = os.Rename(tmp, filepath.Join(*out, name))
+			if err == nil {
+				return
+			}
+		}
+		fmt.Fprintln(os.Stderr, "cannot write", name)
+		removeGenerated()
 		os.Exit(1)
 	}
-	if err := ioutil.WriteFile(filepath.Join(*out, "Funcs.lean"), []byte(funcsLean(declByName, pkgByName)), 0644); err != nil {
-		fmt.Fprintln(os.Stderr, err)
-		os.Exit(1)
-	}
-	if err := ioutil.WriteFile(filepath.Join(*out, "Facts.lean"), []byte(sb.String()), 0644); err != nil {
-		fmt.Fprintln(os.Stderr, err)
-		os.Exit(1)
-	}
+	writeGenerated("Arith.lean", arithLean())
+	writeGenerated("Funcs.lean", funcsLean(declByName, pkgByName))
+	writeGenerated("Facts.lean", sb.String())
 	ioutil.WriteFile(stamp, []byte(key), 0644)
 	fmt.Printf("facts: hookAims=%d sessionRule=%d mapRanges=%d envUses=%d volatileSets=%d fatalSites=%d signerRows=%d validateRows=%d routeRows=%d validateGuards=%d\n",
 		len(hookAims), len(sessionRule), len(mapRanges), len(envUses), len(volatileSets), len(fatalSites), len(signerRows), len(validateRows), len(routeRows), len(validateGuards))
